@@ -1880,6 +1880,11 @@ func run(in In) vh.Result {
 		class = "regexp-leftmost-first"
 	} else if in.Engine == "upsidedown" && in.Q.any(func(q *QN) bool { return q.K == "prefix" && q.T == "" }) {
 		class = "prefix-empty-upsidedown"
+	} else if strings.Contains(in.Cfg, "tfr") && repeatedTermLeaf(in.Q) {
+		// known finding C02-tfr-cache-repeated-term: with the term-field-reader cache on
+		// (fieldTFRCacheThreshold > 0, off by default) a query naming one (field, term) in several
+		// term leaves can answer differently depending on the search options
+		class = "tfr-cache-repeated-term"
 	}
 	segs := ""
 	if sm, ok := idx.StatsMap()["index"].(map[string]interface{}); ok {
@@ -1940,6 +1945,22 @@ func run(in In) vh.Result {
 		Class:      class,
 		Hist:       hist,
 	}
+}
+
+// repeatedTermLeaf: some (field, term) occurs in at least two term leaves of the query tree.
+func repeatedTermLeaf(q *QN) bool {
+	seen := map[string]int{}
+	rep := false
+	q.any(func(n *QN) bool {
+		if n.K == "term" {
+			seen[n.F+"\x00"+n.T]++
+			if seen[n.F+"\x00"+n.T] > 1 {
+				rep = true
+			}
+		}
+		return false
+	})
+	return rep
 }
 
 func main() {
